@@ -164,6 +164,13 @@ func check(c Case) error {
 	}
 	srv := &server{c: &c, states: states, cur: cur}
 	srv.budget = 8*(bits.Len64(cur)+2) + 4*missing + 16
+	if c.First > 2000 {
+		// far sequence numbers are only generated gap-free with the query after the
+		// second state: a state before t is reachable by bisection, so the missing
+		// prefix does not have to be stepped over (bisection restarts: log^2)
+		l := bits.Len64(cur) + 2
+		srv.budget = 8*l + 2*l*l + 16
+	}
 	ds := &replication.Datasource{BaseURL: "http://planet.test" + c.Prefix, Client: &http.Client{Transport: srv}}
 	if c.Loopback {
 		hs := httptest.NewServer(srv)
@@ -204,7 +211,7 @@ func check(c Case) error {
 		return harness.Failf("C19/request-path", "request %q is not a planet-layout state URL under %s/replication/%s/", srv.badPath, c.Prefix, dirs[c.Kind])
 	}
 	if srv.n >= srv.budget || errors.Is(err, errBudget) {
-		return harness.Failf("C19/too-many-requests", "lookup of t=%ds in %s states %d..%d (%d missing files) issued %d requests without finishing; budget 8*(log2(range)+2)+4*missing+16 = %d", c.Query, dirs[c.Kind], c.First, cur, missing, srv.n, srv.budget)
+		return harness.Failf("C19/too-many-requests", "lookup of t=%ds in %s states %d..%d (%d missing files) issued %d requests without finishing; budget = %d", c.Query, dirs[c.Kind], c.First, cur, missing, srv.n, srv.budget)
 	}
 	if err != nil {
 		return harness.Failf("C19/error", "lookup failed: %v (t=%ds, states %d..%d)", err, c.Query, c.First, cur)
@@ -307,7 +314,7 @@ func genCase(t *rapid.T) Case {
 func TestStateAt(t *testing.T) {
 	harness.Run(t, harness.Spec[Case]{
 		Name: "state-at", N: 10000,
-		Rule:  "replication directories served by an in-process http.RoundTripper: kind in {minute,hour,day,changesets}; sequence range [first,cur] with a missing prefix of any length (first up to 3 000 000, also around the 999/1000 path boundary); strictly increasing irregular timestamps; missing-file patterns none / isolated / runs / dense / sparse; query before all, between, equal to a state's timestamp, after all; planet layouts (sequenceNumber=/timestamp= with escaped colons, extra lines in three orders; changeset YAML with last_run/sequence and the off-by-one number, two time layouts), optional base-URL path prefix; oracle = first available state with timestamp >= t (cur if later than all), every request path exactly /replication/<dir>/state.{txt,yaml} or /AAA/BBB/CCC.state.txt, returned number = file name, request count <= 8*(ceil(log2(cur))+2)+4*missing+16; non-trivial = a missing file strictly inside [first,cur]",
+		Rule:  "replication directories served by an in-process http.RoundTripper: kind in {minute,hour,day,changesets}; sequence range [first,cur] with a missing prefix of any length (first up to 3 000 000, also around the 999/1000 path boundary); strictly increasing irregular timestamps; missing-file patterns none / isolated / runs / dense / sparse; query before all, between, equal to a state's timestamp, after all; planet layouts (sequenceNumber=/timestamp= with escaped colons, extra lines in three orders; changeset YAML with last_run/sequence and the off-by-one number, two time layouts), optional base-URL path prefix; oracle = first available state with timestamp >= t (cur if later than all), every request path exactly /replication/<dir>/state.{txt,yaml} or /AAA/BBB/CCC.state.txt, returned number = file name, request count <= 8*(ceil(log2(cur))+2)+4*missing+16 (far, gap-free directories: 8*L+2*L^2+16 with L=log2(cur)+2, the missing prefix need not be stepped over there); non-trivial = a missing file strictly inside [first,cur]",
 		Gen:   genCase,
 		Check: check,
 		Classify: func(c Case) (bool, []string) {
